@@ -72,7 +72,7 @@ def run_case(spec, ctx, R):
 
 
 def _kernel(rng, Q, H, W, idx):
-    kind = ["random", "single_tap", "gaussian", "motion", "full_size", "even", "one", "asym_small"][idx % 8]
+    kind = ["random", "single_tap", "gaussian", "motion", "full_size", "even", "one", "asym_small", "int_weights", "int_weights_asym"][idx % 10]
     if kind == "random":
         kH, kW = int(rng.integers(1, H + 1)), int(rng.integers(1, W + 1))
         psf = rng.random((kH, kW))
@@ -96,6 +96,15 @@ def _kernel(rng, Q, H, W, idx):
         kH = 2 * int(rng.integers(1, H // 2 + 1)) if H >= 2 else 1
         kW = 2 * int(rng.integers(1, W // 2 + 1)) if W >= 2 else 1
         psf = rng.random((kH, kW))
+    elif kind in ("int_weights", "int_weights_asym"):
+        # integer weights in an integer dtype, NOT normalised (binomial-like or arbitrary): the operator is still the centred convolution
+        kH, kW = min(H, int(rng.integers(1, 4))), min(W, int(rng.integers(1, 4)))
+        w = rng.integers(0, 5, size=(kH, kW))
+        if kind == "int_weights" and kH == 3 and kW == 3:
+            w = np.array([[1, 2, 1], [2, 4, 2], [1, 2, 1]])
+        if not w.any():
+            w[0, 0] = 1
+        return np.ascontiguousarray(w.astype([np.int64, np.int32, np.uint8][idx % 3])), kind
     elif kind == "one":
         psf = np.array([[float(rng.choice([1.0, 0.5, 2.0]))]])
     else:
@@ -160,6 +169,14 @@ def _img(spec, ctx, R):
         ctx.hit("image:non_square")
     nontriv = N >= 2 and (np.count_nonzero(psf) > 1 or np.argmax(psf) != (kH // 2) * kW + kW // 2)
     lam = float([1e-3, 1e-1, 1.0, 10.0][spec["idx"] % 4])
+    # lambda in the numeric types a caller may hold it in (the value is the same)
+    lam_form = [float, np.float64, float, np.float32, float][(spec["idx"] // 4) % 5]
+    if lam in (1.0, 10.0) and (spec["idx"] // 4) % 3 == 1:
+        lam_form = [int, np.int64][(spec["idx"] // 12) % 2]
+    if lam_form is np.float32:
+        lam = float(np.float32(lam))
+    lam_arg = lam_form(lam)
+    ctx.hit("callform:lambda_" + lam_form.__name__)
     ctx.distinct(X, psf, lam, nontrivial=bool(nontriv))
     X0, psf0 = X.copy(), psf.copy()
     det = {"image": [H, W], "kernel": [kH, kW], "kernel_kind": kind, "lambda": lam}
@@ -194,15 +211,16 @@ def _img(spec, ctx, R):
               C * EPS * N * p1, site="apply_blur_fft", tags=tags, detail=det)
     # ---- operator matrices ---------------------------------------------------------------------
     A = conv.bccb_matrix(psf, H, W)
+    Ad_built = Ac_built = None
     if _APP is not None and N <= 81:
         try:
-            Ad = _APP._build_bccb_matrix(psf, H, W)
+            Ad = Ad_built = _APP._build_bccb_matrix(psf, H, W)
             ctx.check("dense_builder_is_operator", bool(Ad.shape == A.shape and np.array_equal(Ad, A)), site="_build_bccb_matrix", tags=tags,
                       detail={**det, "max_abs_diff": float(np.abs(Ad - A).max()) if Ad.shape == A.shape else None})
         except Exception as e:
             ctx.check("unexpected_exception", False, site="_build_bccb_matrix", tags=tags, detail={**det, "exception": repr(e)})
         try:
-            Ac = _APP._build_bccb_csr(psf, H, W)
+            Ac = Ac_built = _APP._build_bccb_csr(psf, H, W)
             Acd = np.asarray(Ac.todense())
             ctx.check("csr_builder_is_operator", float(np.abs(Acd - A).max()) if Acd.shape == A.shape else float("inf"), 4 * EPS * p1 + 1e-300,
                       site="_build_bccb_csr", tags=tags, detail=det)
@@ -212,9 +230,9 @@ def _img(spec, ctx, R):
     Bn = ref + 0.01 * amp * rng.standard_normal(ref.shape)      # observed image (blurred by the ORACLE operator, plus noise)
     sv = np.linalg.svd(A, compute_uv=False)
     a2 = float(sv[0] ** 2)
-    lams = [lam]
+    lams = [lam_arg]
     if sv[-1] >= 1e-3:
-        lams.append(0.0)
+        lams.append(0.0 if spec["idx"] % 2 else 0)
         ctx.hit("lambda:zero")
     for lm in lams:
         T = A.T @ A + lm * np.eye(N)
@@ -240,6 +258,20 @@ def _img(spec, ctx, R):
                           detail={**det, "lambda": lm, "kappa_T": kapT})
             except Exception as e:
                 ctx.check("unexpected_exception", False, site="qslst_restore_matrix", tags=tags, detail={**det, "exception": repr(e)})
+            # the same restoration from the operator matrices the application's builders hand out (their dtype follows the kernel's)
+            for bname, Ab in (("dense_builder", Ad_built), ("csr_builder", Ac_built), ("explicit_in_kernel_dtype", A.astype(psf.dtype) if psf.dtype.kind != "u" else None)):
+                if Ab is None:
+                    continue
+                try:
+                    Xb = Q.qslst_restore_matrix(Bn, Ab, lm)
+                except Exception as e:
+                    if bname == "csr_builder":
+                        ctx.skip("matrix_restore_equals_fft", "sparse operator not accepted by qslst_restore_matrix")
+                    else:
+                        ctx.check("unexpected_exception", False, site="qslst_restore_matrix:" + bname, tags=tags, detail={**det, "exception": repr(e)})
+                    continue
+                ctx.check("matrix_restore_equals_fft", float((np.abs(np.asarray(Xb) - Xr) / xrch).max()), C * EPS * N * logf * kapT,
+                          site="qslst_restore_matrix:" + bname, tags=tags, detail={**det, "lambda": repr(lm), "kappa_T": kapT, "matrix_dtype": str(getattr(Ab, "dtype", None))})
         if lm == 0.0 and okX:
             Xi = Q.qslst_restore_fft(ref, psf, 0.0)
             ctx.check("lambda0_inverts", float((np.abs(Xi - X) / xch).max()), C * EPS * N * logf * kapT,
